@@ -10,12 +10,20 @@ def key(ev):
 
 
 def run(tier, seed, work):
-    cfg = "MC_Ante_quick.cfg" if tier == "quick" else "MC_Ante_thorough.cfg"
-    return verif.run_table_check(
-        "C10", tier, seed, work,
-        mc=("MC_Ante.tla", cfg), trace=("Trace_Ante.tla", "Trace_Ante.cfg"),
-        driver_args=["ante", "-cases", os.path.join(work, "cases.ndjson")],
-        key_fn=key, level="model_checking",
+    from checks import relayer_common as rc
+    quick = tier == "quick"
+    cfg = "MC_Ante_quick.cfg" if quick else "MC_Ante_thorough.cfg"
+    table = [("c10table", ["ante", "-cases", os.path.join(work, "cases.ndjson"), "-seed", seed])]
+    # dynamic part of the rule ("signed by the CURRENT relayer proposer"): relayer histories with elections, joins and removals
+    # (also of the proposer itself) in which relayer transactions signed by members and non-members are offered to CheckTx
+    # at every committed state
+    per, depth, nj = (3, 30, 8) if quick else (25, 40, 12)
+    hist = rc.jobs(seed + 50, per, depth, nj, 3, 2, "c10probe")
+    groups = [("Trace_Ante.tla", "Trace_Ante.cfg", table), ("Trace_Relayer.tla", "Trace_Relayer_C10.cfg", hist)]
+    return verif.run_stateful_check(
+        "C10", tier, seed, work, mc_list=[("MC_Ante.tla", cfg)], groups=groups,
+        key_fn=lambda ev: "probe/signer=%s/admitted=%s" % (ev.get("signer"), ev.get("admitted")) if ev.get("ev") == "probe" else key(ev),
+        level="model_checking", extra_cov=dict(exhaustive=True, exhaustive_part="the admission table of MC_Ante (group 1); the probe histories (group 2) are random"),
         assumptions=["message types are taken from the application's interface registry at run time and classified by type URL; a registered type "
                      "the harness cannot classify is reported (the `types` event must show 0 unclassified)",
                      "admission = the ante chain let the transaction through (result code 0, or a failure inside message execution)",
@@ -26,4 +34,5 @@ def run(tier, seed, work):
              "sequence, combinations) - the thorough tier adds the full product for single messages; every case is a real signed transaction pushed "
              "through CheckTx (new / recheck), Simulate, PrepareProposalVerifyTx, ProcessProposalVerifyTx or FinalizeBlock of the real app; "
              "finalised blocks whose case transactions were all refused must leave the app hash equal to a replica's that executed the block "
-             "without them")
+             "without them; plus relayer histories (elections, joins, removals incl. the proposer's) with CheckTx probes signed by members and "
+             "non-members at every committed state: admitted iff signed by the current proposer")
